@@ -130,6 +130,10 @@ type OtherT struct{ A []int }
 	// variable used inside another variable's conversion is called qualified too
 	add("variables-block-output-in-another-package", scratch.Tree{"ex/conv.go": "package ex\n\n// goverter:variables\n// goverter:output:file ../gen/conv.gen.go\n// goverter:output:package MODULE/gen\nvar (\n\tConvertOrder func(source Order) OrderDTO\n\tConvertItem  func(source Item) ItemDTO\n\t// goverter:update target\n\tUpdateItem func(source Item, target *ItemDTO)\n)\n\ntype Order struct {\n\tID    int\n\tItems []Item\n\tFirst *Item\n}\ntype Item struct{ Name string }\ntype OrderDTO struct {\n\tID    int\n\tItems []ItemDTO\n\tFirst *ItemDTO\n}\ntype ItemDTO struct{ Name string }\n"},
 		map[string]string{"use/use.go": "package use\n\nimport (\n\t\"MODULE/ex\"\n\t_ \"MODULE/gen\"\n)\n\nvar _ = ex.ConvertOrder\n"})
+	// D33 continued: a variadic CONTEXT parameter passed on, and a method that delegates to an extend function of the same
+	// variadic signature
+	add("variadic-context-and-delegate", scratch.Tree{"p/p.go": "package p\n\ntype In struct{ A int }\ntype Out struct{ A int }\ntype W struct{ X In }\ntype WT struct{ X Out }\n\n// goverter:context tags\nfunc Tagged(s In, tags ...string) Out { return Out{A: s.A + len(tags)} }\n\nfunc Many(xs ...In) []Out { return nil }\n\n// goverter:converter\n// goverter:extend Tagged\ntype C interface {\n\t// goverter:context tags\n\tConvert(source W, tags ...string) WT\n}\n\n// goverter:converter\n// goverter:extend Many\ntype D interface {\n\tAll(source ...In) []Out\n}\n"},
+		map[string]string{"p/generated/zz_assert.go": "//go:build !goverter\n\npackage generated\n\nimport up \"MODULE/p\"\n\nvar _ up.C = &CImpl{}\nvar _ up.D = &DImpl{}\n"})
 	add("recursive-helper-gains-context-late", scratch.Tree{"p/p.go": "package p\n\ntype V struct{ N int }\ntype W struct{ N int }\ntype S struct {\n\tKid *S2\n\tVal V\n}\ntype S2 struct{ Back *S }\ntype T struct {\n\tKid *T2\n\tVal W\n}\ntype T2 struct{ Back *T }\ntype Outer struct{ X S }\ntype OuterT struct{ X T }\n\n// goverter:context tag\nfunc VToW(v V, tag string) W { return W{N: v.N} }\n\n// goverter:converter\n// goverter:extend VToW\ntype C interface {\n\t// goverter:context tag\n\tConvert(source Outer, tag string) OuterT\n}\n"}, map[string]string{})
 	return out
 }
